@@ -419,6 +419,11 @@ func PutInsertStatement(stmt *InsertStatement) {
 	stmt.Columns = stmt.Columns[:0]
 	stmt.Values = stmt.Values[:0]
 	stmt.TableName = ""
+	stmt.With = nil
+	stmt.Query = nil
+	stmt.Returning = nil
+	stmt.OnConflict = nil
+	stmt.OnDuplicateKey = nil
 
 	// Return to pool
 	insertStmtPool.Put(stmt)
@@ -448,6 +453,10 @@ func PutUpdateStatement(stmt *UpdateStatement) {
 	stmt.Assignments = stmt.Assignments[:0]
 	stmt.Where = nil
 	stmt.TableName = ""
+	stmt.With = nil
+	stmt.Alias = ""
+	stmt.From = nil
+	stmt.Returning = nil
 
 	// Return to pool
 	updateStmtPool.Put(stmt)
@@ -470,6 +479,10 @@ func PutDeleteStatement(stmt *DeleteStatement) {
 	// Reset fields
 	stmt.Where = nil
 	stmt.TableName = ""
+	stmt.With = nil
+	stmt.Alias = ""
+	stmt.Using = nil
+	stmt.Returning = nil
 
 	// Return to pool
 	deleteStmtPool.Put(stmt)
@@ -559,6 +572,14 @@ func PutSelectStatement(stmt *SelectStatement) {
 	stmt.Offset = nil
 	stmt.Fetch = nil
 	stmt.For = nil
+	stmt.With = nil
+	stmt.Distinct = false
+	stmt.DistinctOnColumns = nil
+	stmt.From = nil
+	stmt.Joins = nil
+	stmt.GroupBy = nil
+	stmt.Having = nil
+	stmt.Windows = nil
 
 	// Return to pool
 	selectStmtPool.Put(stmt)
@@ -575,6 +596,7 @@ func PutIdentifier(ident *Identifier) {
 		return
 	}
 	ident.Name = ""
+	ident.Table = ""
 	identifierPool.Put(ident)
 }
 
@@ -593,6 +615,8 @@ func PutBinaryExpression(expr *BinaryExpression) {
 	expr.Left = nil
 	expr.Right = nil
 	expr.Operator = ""
+	expr.Not = false
+	expr.CustomOp = nil
 	binaryExprPool.Put(expr)
 }
 
@@ -730,6 +754,7 @@ func PutExpression(expr Expression) {
 		switch e := current.(type) {
 		case *Identifier:
 			e.Name = ""
+			e.Table = ""
 			identifierPool.Put(e)
 
 		case *BinaryExpression:
@@ -742,6 +767,8 @@ func PutExpression(expr Expression) {
 			e.Left = nil
 			e.Right = nil
 			e.Operator = ""
+			e.Not = false
+			e.CustomOp = nil
 			binaryExprPool.Put(e)
 
 		case *LiteralValue:
@@ -761,6 +788,8 @@ func PutExpression(expr Expression) {
 			e.Over = nil
 			e.Distinct = false
 			e.Filter = nil
+			e.OrderBy = nil
+			e.WithinGroup = nil
 			functionCallPool.Put(e)
 
 		case *CaseExpression:
@@ -990,6 +1019,8 @@ func PutFunctionCall(fc *FunctionCall) {
 	fc.Over = nil
 	fc.Distinct = false
 	fc.Filter = nil
+	fc.OrderBy = nil
+	fc.WithinGroup = nil
 	functionCallPool.Put(fc)
 }
 
